@@ -749,7 +749,7 @@ for _a in (AQBC("vote_entropy"), AQBC("variation_ratios"), AClue("least_confiden
 # --------------------------------------------------------------------------
 # GreedySamplingTarget (regression strategy; labels of the scenario are used as targets)
 # --------------------------------------------------------------------------
-def make_stub_regressor(sym, inputs=None, missing=NAN):
+def make_stub_regressor(sym, inputs=None, missing=NAN, keyed=False):
     """regressor by contract: predict is an uninterpreted function of the feature row (finite real)"""
     import z3
     from skactiveml.base import SkactivemlRegressor
@@ -759,14 +759,21 @@ def make_stub_regressor(sym, inputs=None, missing=NAN):
             super().__init__(missing_label=missing_label, random_state=random_state)
 
         def fit(self, X, y, sample_weight=None):
+            if keyed:
+                # the fitted model is a function of the training data: one uninterpreted predictor per training set
+                if sym:
+                    self.gen_ = models._train_key(0, X, y, sample_weight)
+                else:
+                    self.gen_ = _concrete_key(X, y)
             return self
 
         def predict(self, X):
+            gen = getattr(self, "gen_", 0)
             if sym:
                 c = core.ctx()
                 X = arrays.asnd(X)
                 f = models._fn("regF", X.shape[1])
-                out = [core.SymFloat(f(z3.IntVal(0), z3.IntVal(0), *models._row_terms(list(r)))) for r in arrays.raw(X)]
+                out = [core.SymFloat(f(z3.IntVal(gen), z3.IntVal(0), *models._row_terms(list(r)))) for r in arrays.raw(X)]
                 if not hasattr(c, "inputs"):
                     c.inputs = {}
                 c.inputs.setdefault("__reg__", []).extend([[list(r), o] for r, o in zip(arrays.raw(X), out)])
@@ -774,11 +781,22 @@ def make_stub_regressor(sym, inputs=None, missing=NAN):
             X = np.asarray(X, dtype=float)
             out = np.zeros(len(X))
             for i, r in enumerate(X):
+                if keyed and gen:
+                    # concrete replay: a fixed, training-set dependent affine predictor (any function of the training set
+                    # satisfies the contract)
+                    out[i] = (gen % 7 - 3) * 0.5 + (gen % 5 - 2) * 0.25 * float(np.sum(r))
+                    continue
                 for row, v in (inputs or {}).get("__reg__", []):
                     if np.array_equal(np.asarray(row, dtype=float), r):
                         out[i] = v
             return out
     return StubReg(missing_label=missing)
+
+
+def _concrete_key(X, y):
+    import zlib
+    a = np.ascontiguousarray(np.asarray(X, dtype=float)).tobytes() + np.ascontiguousarray(np.asarray(y, dtype=float)).tobytes()
+    return 1 + zlib.crc32(a) % 1000003
 
 
 class AGreedyTarget(Adapter):
@@ -803,6 +821,67 @@ class AGreedyTarget(Adapter):
 
 for _a in (AGreedyTarget("GSy", 1), AGreedyTarget("GSi", 2)):
     register(_a)
+
+
+# --------------------------------------------------------------------------
+# ExpectedModelChangeMaximization: bootstrap learners (clones of the regressor fitted on index draws of the strategy's
+# generator) against the regressor's own prediction; |difference| x feature norm
+# --------------------------------------------------------------------------
+class AEMCM(Adapter):
+    name = "ExpectedModelChangeMaximization"
+    n = 2          # two samples: every bootstrap draw (2 indices out of 2) is explored
+    independent = False
+    product_abstraction = True
+    slow = True
+    units = ["skactiveml.pool._expected_model_change_maximization:ExpectedModelChangeMaximization.query",
+             "skactiveml.pool._expected_model_change_maximization:_bootstrap_estimators"]
+
+    def make(self, seed, sym=True, inputs=None, **kw):
+        self._inputs = inputs
+        return pool().ExpectedModelChangeMaximization(bootstrap_size=1, n_train=0.5, random_state=seed, **kw)
+
+    def call(self, qs, s, b, sym, table=None, return_utilities=True):
+        reg = make_stub_regressor(sym, getattr(self, "_inputs", None), keyed=True)
+        return qs.query(s.X, s.y, reg, fit_reg=False, candidates=s.cand, batch_size=b, return_utilities=return_utilities)
+
+
+register(AEMCM())
+
+
+# --------------------------------------------------------------------------
+# ProbabilisticAL (pool McPAL): frequencies of a class-frequency estimator -> cost_reduction (closed-form
+# combinatorics over gamma functions; replaced by its contract: one finite real per row, a function of the row)
+# --------------------------------------------------------------------------
+def _pool_cost_reduction_stub(k_vec_list, C=None, m_max=2, prior=1.0e-3):
+    k = arrays.asnd(k_vec_list)
+    f = models._fn("costred", k.shape[1])
+    out = [core.SymFloat(f(z3.IntVal(0), z3.IntVal(0), *models._row_terms(list(r)))) for r in arrays.raw(k)]
+    return arrays.SymNd(arrays._to_obj(out) if out else np.empty(0, dtype=object), float)
+
+
+_stubs.MODULE_STUBS[("skactiveml.pool._probabilistic_al", "cost_reduction")] = _pool_cost_reduction_stub
+
+
+class AProbabilisticAL(Adapter):
+    name = "ProbabilisticAL"
+    needs_clf = True
+    units = ["skactiveml.pool._probabilistic_al:ProbabilisticAL.query"]
+
+    def make(self, seed, sym=True, inputs=None, **kw):
+        self._inputs = inputs
+        return pool().ProbabilisticAL(random_state=seed, **kw)
+
+    def clf(self, sym, table=None, K=2):
+        if sym:
+            return models.StubFreqClassifier(classes=list(range(K)), n_classes=K)
+        return models.real_table_freq_classifier([(row, fr) for _, row, fr in (self._inputs or {}).get("__freq__", [])], n_classes=K)
+
+    def call(self, qs, s, b, sym, table=None, return_utilities=True):
+        return qs.query(s.X, s.y, self.clf(sym, table, s.K), fit_clf=False, candidates=s.cand, batch_size=b,
+                        return_utilities=return_utilities)
+
+
+register(AProbabilisticAL())
 
 
 # --------------------------------------------------------------------------
